@@ -289,3 +289,45 @@ def nester(x=None, attempts=1, child=None):
     except Exception as e:  # pylint: disable=broad-except
       NESTED_LOG.append(('raised', type(e).__name__))
   return rec
+
+
+# --- serialization helpers (C09) ----------------------------------------------
+class ConstObj:
+  """A module-level constant registered with serialization.register_constant."""
+
+  def __repr__(self):
+    return 'CONST_OBJ'
+
+
+CONST_OBJ = ConstObj()
+
+
+class DictObj:
+  """A dict-based object registered with register_dict_based_object."""
+
+  def __init__(self, **kw):
+    self.__dict__.update(kw)
+
+  def __vcanon__(self):
+    return dict(self.__dict__)
+
+  def __repr__(self):
+    return f'DictObj({self.__dict__!r})'
+
+
+DICT_OBJ = DictObj(alpha=1, beta=[1, 2], gamma='g')
+
+LAMBDA = lambda: None  # unserializable on purpose  pylint: disable=unnecessary-lambda-assignment
+
+CANARY_CALLS = []
+
+
+def canary(*args, **kwargs):
+  CANARY_CALLS.append((args, kwargs))
+  return 'canary-result'
+
+
+class CanaryCls:
+
+  def __init__(self, *args, **kwargs):
+    CANARY_CALLS.append(('CanaryCls', args, kwargs))
